@@ -27,8 +27,8 @@ func VerifC09Env(mask, viaStage, free int) {
 	for l := 0; l < 6; l++ {
 		has[l] = mask&(1<<l) != 0
 		if has[l] {
-			if free == 1 {
-				val[l] = rt.Str("value."+c09Levels[l], 2)
+			if free >= 1 {
+				val[l] = rt.StrN("value."+c09Levels[l], free) // `free` arbitrary printable bytes
 			} else {
 				val[l] = rt.OneOf("value."+c09Levels[l], c09Values...)
 			}
